@@ -344,6 +344,7 @@ pub fn profile(prop: &str) -> Profile {
             cancelable_pct: 70,
             weights: W_CANCEL,
             ring_caps: &[(0, 5), (2, 1), (3, 1), (4, 1), (8, 1)],
+            atomic_pct: 35,
             warm_pct: 70,
             live_tail: false,
             props_pct: 30,
